@@ -86,7 +86,12 @@ def canonicalize_metadata(
     for value in values:
         if isinstance(value, dict | list | tuple):
             value = canonicalize_metadata(value)
-        elif isinstance(value, int | float | str | np.ndarray) or value is None:
+        elif isinstance(value, np.ndarray):
+            # str() abbreviates long arrays and rounds the entries to 8
+            # digits, which would identify different quadrature rules
+            items = value.tolist()
+            value = canonicalize_metadata(items) if value.ndim else str(items)
+        elif isinstance(value, int | float | str) or value is None:
             value = str(value)
         elif hasattr(value, "ufl_signature"):
             value = value.ufl_signature
